@@ -14,54 +14,68 @@ variable (g : Graph) (order : List Nat)
 /-- the forest edges are edges of the graph, each emitted once -/
 theorem c16_forest_edges (hs : g.simpleB = true) (ho : order.Perm (List.range g.n)) :
     (∀ e ∈ (spanningForest g order).1, e < g.m) ∧ (spanningForest g order).1.Nodup := by
-  sorry
+  have h := forest_facts g order hs ho
+  exact ⟨h.2.1, h.1⟩
 
 /-- the remaining (on-forest) edges contain no cycle -/
 theorem c16_forest_acyclic (hs : g.simpleB = true) (ho : order.Perm (List.range g.n)) :
     Acyclic g (spanningForest g order).1 := by
-  sorry
+  exact (spanningForest_inv g order hs ho).acyc
 
 /-- `n - c` forest edges: together with acyclicity, `c` is the number of connected components -/
 theorem c16_forest_card (hs : g.simpleB = true) (ho : order.Perm (List.range g.n)) :
     (spanningForest g order).1.length + (spanningForest g order).2 = g.n := by
-  sorry
+  exact (forest_facts g order hs ho).2.2.1
 
 /-- the forest connects every component: every off-forest edge closes a cycle with forest edges -/
 theorem c16_forest_spanning (hs : g.simpleB = true) (ho : order.Perm (List.range g.n)) :
     ∀ e, e < g.m → e ∉ (spanningForest g order).1 →
       ∃ Z, EvenSet g Z ∧ e ∈ Z ∧ ∀ f ∈ Z, f = e ∨ f ∈ (spanningForest g order).1 := by
-  sorry
+  intro e he hne
+  have h := spanningForest_inv g order hs ho
+  exact Conn.closes g _ e he (fun f hf => (h.acc_ok f hf).1) hne
+    (h.closed e he (Or.inl (by simp))).2.2
 
 /-- edge ↦ index is a bijection onto `0 … m-1` -/
 theorem c16_index_bijection (hs : g.simpleB = true) (ho : order.Perm (List.range g.n)) :
     (createIndex g order).index.Perm (List.range g.m) := by
-  sorry
+  exact ci_index_perm g order hs ho
 
 /-- the two lookups are inverse to each other -/
 theorem c16_index_inverse (hs : g.simpleB = true) (ho : order.Perm (List.range g.n)) :
     (∀ e, e < g.m → (createIndex g order).reverse.getD ((createIndex g order).index.getD e 0) 0 = e) ∧
     (∀ i, i < g.m → (createIndex g order).index.getD ((createIndex g order).reverse.getD i 0) 0 = i) := by
-  sorry
+  have h := perm_inverse _ g.m (ci_index_perm g order hs ho)
+  rw [ci_reverse]
+  exact ⟨fun e he => (h.1 e he).2, fun i hi => (h.2 i hi).2⟩
 
 /-- exactly the edges with index below the dimension are off-forest -/
 theorem c16_split (hs : g.simpleB = true) (ho : order.Perm (List.range g.n)) :
     ∀ e, e < g.m →
       ((createIndex g order).isOnForest e = true ↔ e ∈ (spanningForest g order).1) ∧
       ((createIndex g order).index.getD e 0 < (createIndex g order).dim ↔ e ∉ (spanningForest g order).1) := by
-  sorry
+  intro e he
+  obtain ⟨a, b⟩ := ci_split g order hs ho e he
+  unfold ForestIdx.isOnForest
+  rw [decide_eq_true_eq]
+  constructor
+  · exact ⟨fun h => Classical.byContradiction fun hn => by have := b hn; omega, a⟩
+  · exact ⟨fun h => Classical.byContradiction fun hn => by have := a (Classical.not_not.1 hn); omega, b⟩
 
 /-- the reported dimension is `m - n + c` (no natural-number underflow: it is `≤ m`) -/
 theorem c16_dim (hs : g.simpleB = true) (ho : order.Perm (List.range g.n)) :
     (createIndex g order).k = (spanningForest g order).2 ∧
     ((createIndex g order).dim : Int) = (g.m : Int) - g.n + (spanningForest g order).2 ∧
     (createIndex g order).dim ≤ g.m := by
-  sorry
+  have h := forest_facts g order hs ho
+  have hd := ci_dim g order hs ho
+  refine ⟨rfl, ?_, ?_⟩ <;> omega
 
 /-- in ForestIndex coordinates the graph is in the exact domain of the de Pina theory: the ids
 `≥ dim` are an acyclic spanning forest -/
 theorem c16_exact_domain (hs : g.simpleB = true) (hp : g.positiveB = true)
     (ho : order.Perm (List.range g.n)) :
     ExactDomain (reindex g (createIndex g order)) (createIndex g order).dim := by
-  sorry
+  exact exact_domain g order hs hp ho
 
 end Parmcb.C16
